@@ -25,11 +25,11 @@ def lastPut (n : Needle) (pre : Bytes) : Entry := ⟨n.id, pre.length / 8, recSi
     the data file continues with ANY bytes (a torn record, records that were not indexed yet, garbage).
     Reopening succeeds, the volume is writable, the whole index is kept and the data file is cut back to the
     end of the last indexed record. -/
-theorem recover_last_put (crc : Bytes → UInt32) (n : Needle) (h : WF crc n) (pre tail idxPre : Bytes)
+theorem recover_last_put (rows : Nat) (hrows : 0 < rows) (crc : Bytes → UInt32) (n : Needle) (h : WF crc n) (pre tail idxPre : Bytes)
     (hoff : pre.length % 8 = 0) (hpre : 8 ≤ pre.length) (hoffr : pre.length / 8 < 2 ^ 32)
     (hidx : idxPre.length % 16 = 0) :
-    load crc (pre ++ (encode 3 n ++ tail)) (idxPre ++ entryBytes (lastPut n pre)) =
-      { panicked := false, readOnly := false,
+    load rows crc (pre ++ (encode 3 n ++ tail)) (idxPre ++ entryBytes (lastPut n pre)) =
+      { panicked := false, failed := false, readOnly := false,
         dat := ⟨pre ++ encode 3 n, pre.length + actualSize (recSize n) 3⟩,
         idx := idxPre ++ entryBytes (lastPut n pre),
         map := loadCompact (idxEntries (idxPre ++ entryBytes (lastPut n pre))) } := by
@@ -40,20 +40,21 @@ theorem recover_last_put (crc : Bytes → UInt32) (n : Needle) (h : WF crc n) (p
   rw [if_neg e1]
   unfold lastPut
   rw [hc]
-  rfl
+  unfold loadChecked
+  simp only [Bool.false_eq_true, if_false, walkIndex_all rows hrows]
 
 /-- Reads after recovery. In a loaded, non-panicked volume whose map comes from index entries `es`, a key whose
     LAST entry is a put pointing at the record of a well-formed needle `m` with data reads back exactly `m.data`. -/
 theorem recovered_blob_reads_back (crc : Bytes → UInt32) (m : Needle) (hm : WF crc m) (hd : 0 < m.data.length)
     (p post : Bytes) (hoff : p.length % 8 = 0) (hp : 8 ≤ p.length)
     (es1 es2 : List Entry) (hlast : ∀ x ∈ es2, x.key ≠ m.id)
-    (v : Vol) (hv : v.panicked = false) (hdat : v.dat.bytes = p ++ (encode 3 m ++ post))
+    (v : Vol) (hv : v.panicked = false) (hvf : v.failed = false) (hdat : v.dat.bytes = p ++ (encode 3 m ++ post))
     (hmap : v.map = loadCompact (es1 ++ (⟨m.id, p.length / 8, recSize m⟩ : Entry) :: es2)) :
     readNeedle crc v m.id = .data m.data := by
   have hpos : 0 < recSize m := by unfold recSize; simp only [hd, if_true]; omega
   have hget := mget_loadCompact_put es1 es2 ⟨m.id, p.length / 8, recSize m⟩ (by simp only []; omega) (by simp only []; omega) hlast
   unfold readNeedle
-  simp only [hv, Bool.false_eq_true, if_false, hmap, hget]
+  simp only [hv, hvf, Bool.false_eq_true, or_self, if_false, hmap, hget]
   have e1 : ¬ (p.length / 8 = 0) := by omega
   have e2 : ¬ ((recSize m : Int) < 0) := by omega
   have e3 : ¬ ((recSize m : Int) = 0) := by omega
@@ -87,11 +88,11 @@ theorem recovered_deleted_stays_deleted (crc : Bytes → UInt32) (e : Entry) (hs
 /-- New writes are accepted and served: on a writable volume whose cached data-file size is not below the real
     size, writing a well-formed needle with a fresh id succeeds and reads back exactly. -/
 theorem recovered_accepts_and_serves_write (crc : Bytes → UInt32) (x : Needle) (hx : WF crc x) (hd : 0 < x.data.length)
-    (v : Vol) (hp : v.panicked = false) (hro : v.readOnly = false) (hfresh : mget v.map x.id = none)
+    (v : Vol) (hp : v.panicked = false) (hf : v.failed = false) (hro : v.readOnly = false) (hfresh : mget v.map x.id = none)
     (hsz : v.dat.bytes.length ≤ v.dat.size) (hal : v.dat.size % 8 = 0) (h8 : 8 ≤ v.dat.size) :
     (writeNeedle crc v x).2 = .ok ∧ readNeedle crc (writeNeedle crc v x).1 x.id = .data x.data := by
   have hpos : 0 < recSize x := by unfold recSize; simp only [hd, if_true]; omega
-  rw [writeNeedle_fresh crc v x hp hro hfresh]
+  rw [writeNeedle_fresh crc v x hp hf hro hfresh]
   refine ⟨rfl, ?_⟩
   have e4 : v.dat.size / 8 * 8 = v.dat.size := by omega
   have hpre : (v.dat.bytes ++ List.replicate (v.dat.size - v.dat.bytes.length) (0 : UInt8)).length = v.dat.size := by
@@ -101,9 +102,9 @@ theorem recovered_accepts_and_serves_write (crc : Bytes → UInt32) (x : Needle)
   have hdata : (SwV.Spec.C02.expectedDecode 3 x).body.data = x.data := by
     simp [SwV.Spec.C02.expectedDecode, hd, storedBody]
   rw [← hdata]
-  have key := readNeedle_of_get crc (Vol.mk v.panicked v.readOnly (appendRec v.dat (encode 3 x))
+  have key := readNeedle_of_get crc (Vol.mk v.panicked v.failed v.readOnly (appendRec v.dat (encode 3 x))
       (v.idx ++ entryBytes ⟨x.id, v.dat.size / 8, recSize x⟩) (mset v.map x.id (v.dat.size / 8) (recSize x)))
-      x.id (v.dat.size / 8) (recSize x) (SwV.Spec.C02.expectedDecode 3 x) hp (mget_mset_same _ _ _ _) (by omega) (by omega)
+      x.id (v.dat.size / 8) (recSize x) (SwV.Spec.C02.expectedDecode 3 x) hp hf (mget_mset_same _ _ _ _) (by omega) (by omega)
       (by rw [e4]; exact hrd)
   exact key
 
@@ -114,11 +115,11 @@ theorem recovered_accepts_and_serves_write (crc : Bytes → UInt32) (x : Needle)
     Excluded crash states = the three known findings: index not a multiple of 16 bytes (`torn_index_panics`),
     last index entry a tombstone with bytes behind its record (`tombstone_tail_read_only_witness`), committed
     EMPTY blobs (`empty_blob_lost_witness`). -/
-theorem crash_safe_partial (crc : Bytes → UInt32) (n : Needle) (h : WF crc n) (pre tail idxPre : Bytes)
+theorem crash_safe_partial (rows : Nat) (hrows : 0 < rows) (crc : Bytes → UInt32) (n : Needle) (h : WF crc n) (pre tail idxPre : Bytes)
     (hoff : pre.length % 8 = 0) (hpre : 8 ≤ pre.length) (hoffr : pre.length / 8 < 2 ^ 32)
     (hidx : idxPre.length % 16 = 0) :
-    let v := load crc (pre ++ (encode 3 n ++ tail)) (idxPre ++ entryBytes (lastPut n pre))
-    v.panicked = false ∧ v.readOnly = false ∧ v.idx = idxPre ++ entryBytes (lastPut n pre) ∧
+    let v := load rows crc (pre ++ (encode 3 n ++ tail)) (idxPre ++ entryBytes (lastPut n pre))
+    v.panicked = false ∧ v.failed = false ∧ v.readOnly = false ∧ v.idx = idxPre ++ entryBytes (lastPut n pre) ∧
     v.dat.bytes = pre ++ encode 3 n ∧
     -- committed blobs read back exactly
     (∀ (m : Needle) (p post : Bytes) (es1 es2 : List Entry), WF crc m → 0 < m.data.length →
@@ -133,25 +134,48 @@ theorem crash_safe_partial (crc : Bytes → UInt32) (n : Needle) (h : WF crc n) 
     (∀ (x : Needle), WF crc x → 0 < x.data.length → mget v.map x.id = none →
         (writeNeedle crc v x).2 = .ok ∧ readNeedle crc (writeNeedle crc v x).1 x.id = .data x.data) := by
   intro v
-  have hv : v = _ := recover_last_put crc n h pre tail idxPre hoff hpre hoffr hidx
+  have hv : v = _ := recover_last_put rows hrows crc n h pre tail idxPre hoff hpre hoffr hidx
   have ha := actualSize_mod8 (recSize n) 3
-  refine ⟨by rw [hv], by rw [hv], by rw [hv], by rw [hv], ?_, ?_, ?_⟩
+  refine ⟨by rw [hv], by rw [hv], by rw [hv], by rw [hv], by rw [hv], ?_, ?_, ?_⟩
   · intro m p post es1 es2 hm hd hsplit hpo hp8 hes hlast
-    exact recovered_blob_reads_back crc m hm hd p post hpo hp8 es1 es2 hlast v (by rw [hv]) (by rw [hv]; exact hsplit)
+    exact recovered_blob_reads_back crc m hm hd p post hpo hp8 es1 es2 hlast v (by rw [hv]) (by rw [hv]) (by rw [hv]; exact hsplit)
       (by rw [hv]; simp only []; rw [hes])
   · intro e es1 es2 hs hes hlast bs
     exact recovered_deleted_stays_deleted crc e hs es1 es2 hlast v (by rw [hv]; simp only []; rw [hes]) bs
   · intro x hx hd hfresh
     have hlen : (pre ++ encode 3 n).length = pre.length + actualSize (recSize n) 3 := by
       rw [List.length_append, encode_length crc 3 n h]
-    exact recovered_accepts_and_serves_write crc x hx hd v (by rw [hv]) (by rw [hv]) hfresh
+    exact recovered_accepts_and_serves_write crc x hx hd v (by rw [hv]) (by rw [hv]) (by rw [hv]) hfresh
       (by rw [hv]; simp only []; omega) (by rw [hv]; simp only []; omega) (by rw [hv]; simp only []; omega)
+
+/-- The index walker (`WalkIndexFile`, batches of `rows` = `idx.RowsToRead` entries) hands every complete entry
+    of the index to the loader and returns no error, for EVERY index length and every positive batch size — in
+    particular when the index holds an exact multiple of the batch (the final read then returns 0 bytes with
+    io.EOF and the loop must be entered once more to `return nil`). -/
+theorem walk_visits_every_entry (rows : Nat) (hrows : 0 < rows) (idx : Bytes) :
+    walkIndex rows idx = (idxEntries idx, false) := walkIndex_all rows hrows idx
+
+/-- … so a volume never fails to mount because of the number of index entries: whenever the integrity check
+    passes, the load does not fail and the map is built from all entries -/
+theorem load_never_fails_on_entry_count (rows : Nat) (hrows : 0 < rows) (r : Dat × Bytes × Bool) (hr : r.2.2 = false) :
+    (loadChecked rows r).failed = false ∧ (loadChecked rows r).map = loadCompact (idxEntries r.2.1) := by
+  unfold loadChecked
+  simp only [hr, Bool.false_eq_true, if_false, walkIndex_all rows hrows]
+  exact ⟨trivial, trivial⟩
+
+/-- the walker model's exit path the boundary case depends on: with the loop condition grouped as
+    `count > 0 && (e == nil || e == io.EOF)` a full last batch would end in `return e` = io.EOF; the model
+    (and the code, see `bridge_walk_loop`) re-enters the loop on `e == io.EOF` alone. Concrete boundary: 2 batches of 1 row. -/
+theorem walk_exact_batch_boundary_witness :
+    walkIndex 1 (entryBytes ⟨1, 1, 6⟩ ++ entryBytes ⟨2, 6, 7⟩) = ([⟨1, 1, 6⟩, ⟨2, 6, 7⟩], false) ∧
+    walkIndex 2 (entryBytes ⟨1, 1, 6⟩ ++ entryBytes ⟨2, 6, 7⟩) = ([⟨1, 1, 6⟩, ⟨2, 6, 7⟩], false) := by
+  decide +kernel
 
 /-! ### the excluded crash states (known findings): the full-strength statement is false there -/
 
 /-- finding reopen/panic-on-torn-index-entry: ANY index whose size is not a multiple of 16 makes the loader panic -/
-theorem torn_index_panics (crc : Bytes → UInt32) (dat idx : Bytes) (h : idx.length % 16 ≠ 0) :
-    (load crc dat idx).panicked = true := by
+theorem torn_index_panics (rows : Nat) (crc : Bytes → UInt32) (dat idx : Bytes) (h : idx.length % 16 ≠ 0) :
+    (load rows crc dat idx).panicked = true := by
   unfold load; simp [h]
 
 def crc0 : Bytes → UInt32 := fun _ => 0
@@ -161,14 +185,14 @@ def w2 : Needle := { cookie := 2, id := 2, flags := 0, data := [9] }
 
 /-- finding read/committed-empty-blob-lost-after-reload: put of an empty blob, both files complete, no crash at all -/
 theorem empty_blob_lost_witness :
-    readNeedle crc0 (load crc0 (superBlock ++ encode 3 w0) (entryBytes ⟨1, 1, 0⟩)) 1 = .notFound := by
+    readNeedle crc0 (load 1024 crc0 (superBlock ++ encode 3 w0) (entryBytes ⟨1, 1, 0⟩)) 1 = .notFound := by
   decide +kernel
 
 /-- finding write/read-only-after-tail-behind-tombstone: put 1, delete 1 (both indexed), then ONE byte of the
     next record reached the data file ⇒ the volume is opened read-only; without that byte it is writable -/
 theorem tombstone_tail_read_only_witness :
-    (load crc0 (superBlock ++ (encode 3 w1 ++ (encode 3 w0 ++ [0x11]))) (entryBytes ⟨1, 1, 6⟩ ++ entryBytes ⟨1, 6, -1⟩)).readOnly = true ∧
-    (load crc0 (superBlock ++ (encode 3 w1 ++ (encode 3 w0 ++ []))) (entryBytes ⟨1, 1, 6⟩ ++ entryBytes ⟨1, 6, -1⟩)).readOnly = false := by
+    (load 1024 crc0 (superBlock ++ (encode 3 w1 ++ (encode 3 w0 ++ [0x11]))) (entryBytes ⟨1, 1, 6⟩ ++ entryBytes ⟨1, 6, -1⟩)).readOnly = true ∧
+    (load 1024 crc0 (superBlock ++ (encode 3 w1 ++ (encode 3 w0 ++ []))) (entryBytes ⟨1, 1, 6⟩ ++ entryBytes ⟨1, 6, -1⟩)).readOnly = false := by
   decide +kernel
 
 /-! ### bridges (T1) -/
@@ -189,6 +213,15 @@ theorem bridge_size_predicates (s : Int) :
   · by_cases h : s > 0 <;> simp [h] <;> omega
   · by_cases h : s < 0 <;> simp [h] <;> omega
 
+/-- the batch size the model's walker is instantiated with (driver: `Gen.C03.RowsToRead`) is positive -/
+theorem bridge_rows_to_read : 0 < SwV.Gen.C03.RowsToRead ∧ SwV.Gen.C03.RowsToRead = 1024 := by decide
+
+/-- `WalkIndexFile`'s loop and early-exit conditions are the ones `walkFrom`/`walkIndex` transcribe
+    (Go precedence: `(count > 0 && e == nil) || e == io.EOF`) -/
+theorem bridge_walk_loop :
+    SwV.Gen.C03.walkLoopCond = "count > 0 && e == nil || e == io.EOF" ∧
+    SwV.Gen.C03.walkEmptyCond = "count == 0 && e == io.EOF" ∧ SwV.Gen.C03.src_WalkIndexFile = "49505c0b1e8672d9" := by decide
+
 theorem bridge_check_loop : SwV.Gen.C03.checkLoopCond = "i <= 10 && indexSize >= int64(i)*NeedleMapEntrySize" := by decide
 
 theorem bridge_source_pins :
@@ -200,7 +233,7 @@ theorem bridge_source_pins :
 /-! ### non-vacuity: the hypotheses of `crash_safe_partial` hold for a two-record volume with a torn third record -/
 example : WF crc0 w2 ∧ (superBlock ++ encode 3 w1).length % 8 = 0 ∧ 8 ≤ (superBlock ++ encode 3 w1).length ∧
     (entryBytes ⟨1, 1, 6⟩).length % 16 = 0 := by decide +kernel
-example : readNeedle crc0 (load crc0 ((superBlock ++ encode 3 w1) ++ (encode 3 w2 ++ [1, 2, 3]))
+example : readNeedle crc0 (load 1024 crc0 ((superBlock ++ encode 3 w1) ++ (encode 3 w2 ++ [1, 2, 3]))
     (entryBytes ⟨1, 1, 6⟩ ++ entryBytes (lastPut w2 (superBlock ++ encode 3 w1)))) 1 = .data [7] := by decide +kernel
 
 end SwV.Props.C03
